@@ -14,6 +14,8 @@ structure Parsed where
   data : Bytes
   sniff : List (String × Bool)
   runs : List (String × String)      -- parser ↦ "ok <info…>" | "err" | "panic"
+  blocks : Nat := 0                  -- PEM blocks encoding/pem finds in the content, one after the other
+  pgpBlocks : Nat := 0               -- … of which the label starts with "PGP "
 
 partial def parseRuns : List String → Option (List (String × String))
   | [] => some []
@@ -24,6 +26,8 @@ partial def parseRuns : List String → Option (List (String × String))
   | _ => none
 
 def parseArgs : List String → Option Parsed
+  | name :: data :: "B" :: t :: g :: "S" :: rest =>
+    (parseArgs (name :: data :: "S" :: rest)).map fun p => { p with blocks := t.toNat?.getD 0, pgpBlocks := g.toNat?.getD 0 }
   | name :: data :: "S" :: rest =>
     let sn := rest.takeWhile (· ≠ "P")
     let pr := rest.dropWhile (· ≠ "P")
@@ -39,6 +43,15 @@ def envOf (p : Parsed) : Env String :=
     run := fun q => match p.runs.lookup q with
       | some r => if r.startsWith "ok " then .ok r else if r == "panic" then .panic q else .err
       | none => .panic ("unknown parser " ++ q) }
+
+/-- how many PEM blocks a `PEMFile` result describes: the children of "multiple PEM blocks", else one -/
+def describedBlocks (res : String) : Nat :=
+  match (res.splitOn " ").filter (· ≠ "") with
+  | "ok" :: toks =>
+    match Info.parse toks with
+    | some i => if i.desc = strBytes "multiple PEM blocks" then i.children.length else 1
+    | none => 0
+  | _ => 0
 
 def bareStr : String := "ok " ++ Info.empty.show
 
@@ -69,7 +82,8 @@ def holds (p : Parsed) (impl : String) : String :=
       else if startsWithStr p.data "-----BEGIN PGP " then
         -- PGP armor is never reported as generic PEM: with the PGP parser failing, nothing PEM-ish may be shown
         (if impl = bareStr then "holds" else
-         if okRuns.any (fun q => q.1 = "PEMFile" ∧ q.2 = impl) then "FAILS pgp_not_pem: PGP armor is reported as generic PEM"
+         if okRuns.any (fun q => q.1 = "PEMFile" ∧ q.2 = impl) ∧ describedBlocks impl > p.blocks - p.pgpBlocks then
+           "FAILS pgp_not_pem: PGP armor is reported as generic PEM (more blocks described than there are non-PGP blocks)"
          else if okRuns.any (fun q => q.2 = impl) then "holds" else "FAILS no_trace: result is neither a candidate's result nor the bare description")
       else if impl = bareStr ∨ okRuns.any (fun q => q.2 = impl) then "holds"
       else "FAILS no_trace: result is neither a candidate's result nor the bare description"
